@@ -335,9 +335,8 @@ let enc_case (line : string) : string =
            (* one file per window "start-end", in the order of the paths *)
            let wins = Stdlib.List.map (fun w -> match split_on '-' w with
              | [a; b] -> (n_of_hex a, n_of_hex b) | _ -> failwith "bad window") (split_on '.' sp) in
-           let sizes = Stdlib.List.map2 (fun path (a, b) ->
-             let l = { l0 with DiskdumpSpec.dl_split = true; dl_start_pfn = a; dl_end_pfn = b } in
-             write_file path (DiskdumpSpec.encode_dd l pages)) c.paths wins in
+           let outs = DiskdumpSpec.encode_dd_set l0 wins pages in
+           let sizes = Stdlib.List.map2 write_file c.paths outs in
            "ok " ^ String.concat "," (Stdlib.List.map string_of_int sizes))
   | f -> failwith ("unknown format " ^ f)
 
